@@ -98,28 +98,34 @@ type Snap struct {
 	Tasks bool      `json:"tasks"` // task queue non-empty
 }
 
+// SeenRec names one epoll event of an iteration: k = "c" client, "s" backend connection, "W" wake-up fd, "L" listener.
+type SeenRec struct {
+	K string `json:"k"`
+	N string `json:"n"`
+}
+
 // Event is one line of the recorded trace. Every field is always present so that the TLA+ side
 // can access any of them on any line.
 type Event struct {
-	Tid   int      `json:"tid"`
-	Ev    string   `json:"ev"`
-	C     string   `json:"c"`
-	I     int      `json:"i"`
-	N     string   `json:"n"`
-	Conn  string   `json:"conn"`
-	K     string   `json:"k"`
-	Slots []string `json:"slots"`
-	Toks  []Tok    `json:"toks"`
-	Rep   AbsRep   `json:"rep"`
-	Fid   string   `json:"fid"`
-	Kind  string   `json:"kind"`
-	Cls   string   `json:"cls"`
-	To    string   `json:"to"`
-	Seen  []string `json:"seen"`
-	Snap  Snap     `json:"snap"`
-	Raw   string   `json:"raw"`
-	Txt   string   `json:"txt"`
-	Num   int      `json:"num"`
+	Tid   int       `json:"tid"`
+	Ev    string    `json:"ev"`
+	C     string    `json:"c"`
+	I     int       `json:"i"`
+	N     string    `json:"n"`
+	Conn  string    `json:"conn"`
+	K     string    `json:"k"`
+	Slots []string  `json:"slots"`
+	Toks  []Tok     `json:"toks"`
+	Rep   AbsRep    `json:"rep"`
+	Fid   string    `json:"fid"`
+	Kind  string    `json:"kind"`
+	Cls   string    `json:"cls"`
+	To    string    `json:"to"`
+	Seen  []SeenRec `json:"seen"`
+	Snap  Snap      `json:"snap"`
+	Raw   string    `json:"raw"`
+	Txt   string    `json:"txt"`
+	Num   int       `json:"num"`
 }
 
 func (e *Event) norm() {
@@ -133,7 +139,7 @@ func (e *Event) norm() {
 		e.Rep.Toks = []Tok{}
 	}
 	if e.Seen == nil {
-		e.Seen = []string{}
+		e.Seen = []SeenRec{}
 	}
 	if e.Snap.Cli == nil {
 		e.Snap.Cli = []CliSnap{}
